@@ -199,7 +199,28 @@ impl Hash for PlutusData {
 
 impl std::cmp::Eq for PlutusData {}
 
-to_from_bytes!(PlutusData);
+to_bytes!(PlutusData);
+to_hex!(PlutusData);
+// a datum is exactly one CBOR item: bytes that follow it would be dropped on re-encoding and the datum hash would change
+from_bytes!(PlutusData, bytes, {
+    let len = bytes.len() as u64;
+    let mut raw = Deserializer::from(std::io::Cursor::new(bytes));
+    let data = Self::deserialize(&mut raw)?;
+    if raw.as_ref().position() < len {
+        Err(DeserializeError::new(
+            "PlutusData",
+            DeserializeFailure::CBOR(cbor_event::Error::TrailingData),
+        ))
+    } else {
+        Ok(data)
+    }
+});
+from_hex!(PlutusData, hex_str, {
+    let bytes = hex::decode(hex_str).map_err(|e| {
+        DeserializeError::new("PlutusData", DeserializeFailure::CustomError(e.to_string()))
+    })?;
+    Ok(PlutusData::from_bytes(bytes)?)
+});
 
 #[wasm_bindgen]
 impl PlutusData {
